@@ -8,7 +8,7 @@ use koto_parser::{
     ConstantIndex, ConstantPool, Function, ImportItem, KString, Node, ParserOptions, Span,
     StringAlignment, StringContents, StringFormatOptions, StringNode,
 };
-use std::{cell::OnceCell, iter};
+use std::{cell::OnceCell, collections::HashMap, iter, rc::Rc};
 use unicode_width::{UnicodeWidthChar, UnicodeWidthStr};
 
 /// Returns the input source formatted according to the provided options
@@ -913,6 +913,11 @@ struct FormatContext<'source> {
     options: &'source FormatOptions,
     // The byte offset of each line's start
     line_offsets: Vec<u32>,
+    // The byte offsets of the positions at which tokens start and end
+    //
+    // Span columns count display widths rather than bytes, so the byte offsets that correspond to
+    // a span's positions are looked up via the lexer's tokens.
+    position_offsets: Rc<HashMap<(u32, u32), u32>>,
 }
 
 impl<'source> FormatContext<'source> {
@@ -925,11 +930,30 @@ impl<'source> FormatContext<'source> {
             )
             .collect();
 
+        let mut position_offsets = HashMap::new();
+        for token in koto_lexer::Lexer::new(source) {
+            let start = token.span.start;
+            let end = token.span.end;
+            position_offsets
+                .entry((start.line, start.column))
+                .or_insert(token.source_bytes.start as u32);
+            position_offsets.insert((end.line, end.column), token.source_bytes.end as u32);
+        }
+
         Self {
             source,
             ast,
             options,
             line_offsets,
+            position_offsets: position_offsets.into(),
+        }
+    }
+
+    fn byte_offset(&self, position: &Position) -> usize {
+        match self.position_offsets.get(&(position.line, position.column)) {
+            Some(offset) => *offset as usize,
+            // Fall back to treating the column as a byte offset into the line
+            None => (self.line_offsets[position.line as usize] + position.column) as usize,
         }
     }
 
@@ -946,9 +970,9 @@ impl<'source> FormatContext<'source> {
     }
 
     fn source_slice(&self, span: &Span) -> &'source str {
-        let start = self.line_offsets[span.start.line as usize] + span.start.column;
-        let end = self.line_offsets[span.end.line as usize] + span.end.column;
-        &self.source[start as usize..end as usize]
+        let start = self.byte_offset(&span.start);
+        let end = self.byte_offset(&span.end);
+        &self.source[start..end]
     }
 }
 
